@@ -166,4 +166,4 @@ def run(ck):
     ck.assumptions += ['fork points = scheduling points of the other thread (sync operations; function entries in the fn campaign)', 'sequentially consistent interleavings']
     ck.coverage(states=len(outcomes) + hashed_states[0], scheduler_states_in_hashed_passes=hashed_states[0], transitions=total, traces_validated_against_impl=total, evaluations=total, distinct_nontrivial=max(len(outcomes), len(fork_points)),
                 rule='all schedules within the preemption bound per campaign (output x child depth x calls); distinct = max(distinct (campaign, verdict, child status), distinct fork positions relative to the other thread)',
-                distinct_fork_positions=len(fork_points), replay_divergences=diverged[0], campaigns=camps, samples=camps[:5] or [{'note': 'none'}])
+                distinct_fork_positions=len(fork_points), unreproducible_hangs_replayed_ok=len(S.UNREPRODUCIBLE_HANGS), replay_divergences=diverged[0], campaigns=camps, samples=camps[:5] or [{'note': 'none'}])
